@@ -1,4 +1,5 @@
 import UvModel.Lemmas.LoopRunInv
+import UvModel.Lemmas.LoopReqs2
 /-!
   C01 — loop liveness.  Theorems over the LoopModel (`HandleKernels`, `Loop`, `LoopRun`);
   `Script` = what every callback invocation does (arbitrary), `prog` = arbitrary main program,
@@ -133,6 +134,71 @@ theorem alive_in_close_phase_witness :
     let s2 := withKernel (withKernel s1 3 setClosed) 3 handleUnref            -- uv__finish_close(h1) up to the callback
     alive s2 = false ∧ s2.closingLocal = [3, 2] ∧ s2.c.get 2 = some ⟨false, true, true, false, false⟩ := by decide
 
+/-- `alive_iff_full_statement` is FALSE of the code at API boundaries of `main`, for the `pending_inv` reason:
+    `uv_run` makes at most 8 extra passes over the pending queue after polling (core.c `uv__run_pending` loop in
+    `uv_run`).  Two back-to-back `uv_udp_send`s, and the send callbacks of requests 1..8 each issue one more
+    `uv_udp_send`: every pass sends the queued datagram (re-feeding the watcher) and completes it; after the 8th
+    pass the watcher is still in the pending queue, nothing is owed, the handle has been stopped, nothing is
+    closing — and `uv_run(UV_RUN_NOWAIT)` returns with `uv_loop_alive()` true. -/
+def chainScript : Script := fun key _ _ =>
+  match key with
+  | .r r => if 1 ≤ r ∧ r ≤ 8 then [Op.udpSend 2] else []
+  | _ => []
+
+def chainProg : List MainOp :=
+  [MainOp.op (.init .udp), MainOp.op (.udpSend 2), MainOp.op (.udpSend 2), MainOp.run .nowait]
+
+theorem alive_iff_full_witness :
+    let s := runMain chainScript 5 (initLoop 1000 false [{ clock := 1000 }]) chainProg
+    alive s = true ∧ s.pending = [2] ∧ s.ar = 0 ∧ s.reqs = [] ∧ s.closing = [] ∧ s.nextReq = 10 ∧ s.halted = false ∧
+      s.c.fl.map (fun e => (e.1, e.2.active, e.2.closing)) = [(0, false, false), (1, true, false), (2, false, false)] ∧
+      s.c.get 1 = some ⟨true, false, false, false, true⟩ := by decide +kernel
+
+theorem alive_iff_full_false : ¬ alive_iff_full_statement := by
+  intro h
+  have := h chainScript 5 1000 false [{ clock := 1000 }] chainProg
+  revert this
+  decide +kernel
+
+/-- `alive_iff` at every API boundary of `main`, with the request disjunct in its documented form ("a request is
+    owed a callback", by `reqs_inv`) — the corrected `alive_iff_full_statement`: the pending-queue disjunct cannot
+    be dropped (`alive_iff_full_false`), and the closing disjunct is the loop's `closing_handles` list (inside the
+    closing phase it is detached, see `alive_in_close_phase_witness`). -/
+theorem alive_iff_boundary (sc : Script) (fuel clock0 : Nat) (metrics : Bool) (oracle : List PollRes) (prog : List MainOp) :
+    let s := runMain sc fuel (initLoop clock0 metrics oracle) prog
+    alive s = true ↔ (∃ e ∈ s.c.fl, e.2.active = true ∧ e.2.ref = true ∧ e.2.closing = false) ∨ s.reqs ≠ [] ∨
+      s.pending ≠ [] ∨ s.closing ≠ [] := by
+  intro s
+  have hi : SInv s := runMain_inv sc fuel prog _ (initLoop_inv clock0 metrics oracle)
+  have hr : Reqs.RInv none s := Reqs.runMain_rinv sc fuel prog _ (Reqs.initLoop_rinv clock0 metrics oracle)
+  have har : 0 < s.ar ↔ s.reqs ≠ [] := by
+    rw [hr.1]
+    cases s.reqs with
+    | nil => simp
+    | cons a t => simp
+  rw [alive_iff s hi, har]
+
+/-- the same inside callbacks: wherever both accounting invariants hold (they do after every API call, callback
+    and phase: `count_inv_in_callbacks`, `reqs_inv_in_callbacks`) -/
+theorem alive_iff_reqs (s : State) (hi : SInv s) (hr : Reqs.RInv none s) :
+    alive s = true ↔ (∃ e ∈ s.c.fl, e.2.active = true ∧ e.2.ref = true ∧ e.2.closing = false) ∨ s.reqs ≠ [] ∨
+      s.pending ≠ [] ∨ s.closing ≠ [] := by
+  have har : 0 < s.ar ↔ s.reqs ≠ [] := by
+    rw [hr.1]
+    cases s.reqs with
+    | nil => simp
+    | cons a t => simp
+  rw [alive_iff s hi, har]
+
+/-- non-vacuity: a closing handle keeps the loop alive through `closing_handles`; a queued work request through
+    `reqs` -/
+example :
+    let s := runMain (fun _ _ _ => []) 5 (initLoop 1000 false []) [MainOp.op (.init .idle), MainOp.op (.close 2)]
+    alive s = true ∧ s.closing = [2] ∧ s.reqs = [] ∧ s.pending = [] := by decide
+example :
+    let s := runMain (fun _ _ _ => []) 5 (initLoop 1000 false []) [MainOp.op .work]
+    alive s = true ∧ s.closing = [] ∧ s.reqs = [⟨0, .work⟩] ∧ s.pending = [] := by decide
+
 /-! ### uv_run's return value -/
 theorem alive_stop (s : State) (b : Bool) : alive { s with stop := b } = alive s := rfl
 theorem alive_updateTime (s : State) : alive (updateTime s) = alive s := rfl
@@ -249,11 +315,10 @@ def reqs_inv_statement : Prop :=
     let s := runMain sc fuel (initLoop clock0 metrics oracle) prog
     s.ar = s.reqs.length ∧ 0 ≤ s.ar
 
-/-- `reqs_inv_partial`: submission registers exactly one request (`uv_queue_work`, first half of
-    `uv__udp_send`), and a completion step (`uv__req_unregister` + removal of the record, as done by
-    `uv__work_done` / `uv__udp_run_completed` right before the callback) keeps `active_reqs = |owed|` when the
-    completed request is owed exactly once.  Missing for the full statement: the invariant that the work queues
-    (`poolQ`, `running`, `doneQ`, `doneLocal`, every `wq`/`wcq`) partition `reqs`. -/
+/-- `reqs_inv_partial` (kept; superseded by `reqs_inv`): submission registers exactly one request
+    (`uv_queue_work`, first half of `uv__udp_send`), and a completion step (`uv__req_unregister` + removal of the
+    record) keeps `active_reqs = |owed|` when the completed request is owed exactly once.  That premise is what
+    `Lemmas/LoopReqs.lean` establishes at every completion site (`held_owed_once`). -/
 theorem reqs_inv_partial (s : State) (h : s.ar = s.reqs.length) :
     (workSubmit s).ar = (workSubmit s).reqs.length ∧
     (∀ id, (udpSendEnqueue s id).ar = (udpSendEnqueue s id).reqs.length) ∧
@@ -275,5 +340,72 @@ theorem reqs_inv_partial (s : State) (h : s.ar = s.reqs.length) :
           simp [List.filter, hx', bne]; simp [bne] at ih; omega
     have := this s.reqs
     simp only [reqUnregister, h]; omega
+
+
+/-- `reqs_inv`: for every script, poller behaviour and main program, `loop->active_reqs.count` equals the number
+    of requests that are owed a callback, and is non-negative (`uv__req_unregister`'s assertion never fires).
+    Proof (`Lemmas/LoopReqs*.lean`): every owed request id sits in at most one queue slot (thread-pool
+    `running/poolQ/doneQ/doneLocal`, a udp handle's `write_queue/write_completed_queue`, a stream's `connect_req`),
+    every slot holds an owed request, ids are unique; each completion site removes the slot and the record
+    together, `uv_cancel`/`uv__udp_sendmsg`/worker completion only move slots. -/
+theorem reqs_inv : reqs_inv_statement := by
+  intro sc fuel clock0 metrics oracle prog s
+  have hr : Reqs.RInv none s := Reqs.runMain_rinv sc fuel prog _ (Reqs.initLoop_rinv clock0 metrics oracle)
+  exact ⟨hr.1, by rw [hr.1]; exact Int.natCast_nonneg _⟩
+
+/-- the request invariant holds after every single API call wherever it is issued, after every callback and
+    after every loop iteration (see `Lemmas/LoopReqs2.lean` for each phase and completion site) -/
+theorem reqs_inv_in_callbacks (s : State) (hr : Reqs.RInv none s) :
+    (∀ o, Reqs.RInv none (stepOp s o)) ∧ (∀ ops : List Op, Reqs.RInv none (ops.foldl stepOp s)) ∧
+    (∀ sc ph k key id a b occ, Reqs.RInv none (runCb sc ph k key id a b occ s)) ∧
+    (∀ sc mode, Reqs.RInv none (iteration sc mode s)) ∧
+    s.ar = s.reqs.length ∧ 0 ≤ s.ar :=
+  ⟨fun o => Reqs.stepOp_rinv s o hr, fun ops => Reqs.foldl_stepOp_rinv ops s hr,
+   fun sc ph k key id a b occ => Reqs.runCb_rinv sc ph k key id a b occ s hr,
+   fun sc mode => Reqs.iteration_rinv sc mode s hr, hr.1, by rw [hr.1]; exact Int.natCast_nonneg _⟩
+
+/-- what every completion site relies on: a request found in a queue slot (`cnt` counts the slots holding `r`)
+    is owed exactly once, so `uv__req_unregister` + dropping the record keeps the equation
+    (third part of `reqs_inv_partial`) -/
+theorem held_owed_once (s : State) (hr : Reqs.RInv none s) (r : Nat) (hh : 0 < Reqs.cnt none r s) :
+    (s.reqs.filter (·.id == r)).length = 1 := by
+  have h1 := hr.2.1 r
+  have h2 := hr.2.2.1 r
+  simp only [Reqs.idc, List.countP_eq_length_filter] at h1 h2
+  omega
+
+/-- owed request ids are pairwise distinct and below the next id to be handed out -/
+theorem reqs_ids (sc : Script) (fuel clock0 : Nat) (metrics : Bool) (oracle : List PollRes) (prog : List MainOp) :
+    let s := runMain sc fuel (initLoop clock0 metrics oracle) prog
+    (∀ r, (s.reqs.filter (·.id == r)).length ≤ 1) ∧ ∀ q ∈ s.reqs, q.id < s.nextReq := by
+  intro s
+  have hr : Reqs.RInv none s := Reqs.runMain_rinv sc fuel prog _ (Reqs.initLoop_rinv clock0 metrics oracle)
+  refine ⟨?_, ?_⟩
+  · intro r
+    have h2 := hr.2.2.1 r
+    simpa only [Reqs.idc, List.countP_eq_length_filter] using h2
+  · intro q hq
+    apply Nat.lt_of_not_le
+    intro hle
+    have h3 := hr.2.2.2 q.id hle
+    simp only [Reqs.idc, List.countP_eq_zero] at h3
+    exact absurd (h3 q hq) (by simp)
+
+/-- non-vacuity: four work items (one finishes on the pool thread, one is cancelled while queued), two udp sends;
+    after one `uv_run(UV_RUN_NOWAIT)` four callbacks have run (2 work, 2 send) and two requests are still owed:
+    one running on the pool thread, one queued -/
+example :
+    let s := runMain (fun _ _ _ => []) 5 (initLoop 1000 false [{ clock := 1000, done := 1, batch := [(.async, 1)] }])
+      [MainOp.op (.init .udp), MainOp.op .work, MainOp.op .work, MainOp.op .work, MainOp.op .work,
+       MainOp.op (.udpSend 2), MainOp.op (.udpSend 2), MainOp.op (.cancel 1), MainOp.run .nowait]
+    s.ar = 2 ∧ s.reqs = [⟨2, .work⟩, ⟨3, .work⟩] ∧ s.running = some 2 ∧ s.poolQ = [3] ∧ s.ncbTotal = 4 ∧
+      Reqs.cnt none 2 s = 1 ∧ Reqs.cnt none 3 s = 1 := by decide +kernel
+/-- before the run: five owed (three work — one of them cancelled and waiting in `loop->wq` — and two sends) -/
+example :
+    let s := runMain (fun _ _ _ => []) 5 (initLoop 1000 false [])
+      [MainOp.op (.init .udp), MainOp.op .work, MainOp.op .work, MainOp.op .work,
+       MainOp.op (.udpSend 2), MainOp.op (.udpSend 2), MainOp.op (.cancel 1)]
+    s.ar = 5 ∧ s.reqs.length = 5 ∧ s.doneQ = [(1, true)] ∧ s.poolQ = [2] ∧ s.running = some 0 ∧
+      (s.handles.map (fun h => (h.wq, h.wcq))) = [([], []), ([], []), ([4], [(3, 1)])] := by decide +kernel
 
 end UvModel.Props.C01
